@@ -18,7 +18,7 @@ import (
 	"pgregory.net/rapid"
 )
 
-func TestMain(m *testing.M)   { fdkit.InstallLogger(); vkit.Main(m) }
+func TestMain(m *testing.M)   { c19.CapMemory(); fdkit.InstallLogger(); vkit.Main(m) }
 func TestReplay(t *testing.T) { verifC19Setup(); defer verifC19Teardown(); vkit.Replay(t) }
 
 const verifC19Time = "2031-02-03"
@@ -153,8 +153,34 @@ func verifC19Index(c VerifC19Case, ev *vkit.JNode) (string, bool) {
 	return sb.String(), hostile
 }
 
-// verifC19Body checks one request body against the events it must carry.
+// verifC19Body checks one request body against the events it must carry. When an
+// event of the body has an index value that needs JSON escaping, every framing
+// failure is reported under one signature: the value is spliced into the action
+// line as it is, and depending on the characters the damage shows up as an
+// invalid action line, a wrong/injected _index, shifted lines or extra documents.
 func verifC19Body(o *vkit.Outcome, c VerifC19Case, what string, body []byte, want []c19.Ev, parents, earlier map[string]bool) {
+	hostile := ""
+	for _, e := range want {
+		if idx, h := verifC19Index(c, e.Tree()); h {
+			hostile = idx
+			break
+		}
+	}
+	sub := vkit.NewOutcome()
+	verifC19BodyClauses(sub, c, what, body, want, parents, earlier)
+	err := sub.FirstErr()
+	if err == nil {
+		return
+	}
+	se := err.(*vkit.SigError)
+	if hostile != "" {
+		o.Failf(c19.P, "es:index-value-spliced-unescaped", "an event whose index name is %q (needs escaping inside a JSON string) damages the bulk body (%s): %s", c19.Clip(hostile), se.Sig, se.Err.Error())
+		return
+	}
+	o.Failf(c19.P, se.Sig, "%s", se.Err.Error())
+}
+
+func verifC19BodyClauses(o *vkit.Outcome, c VerifC19Case, what string, body []byte, want []c19.Ev, parents, earlier map[string]bool) {
 	lines, nlTerminated := c19.SplitLines(body)
 	if !nlTerminated {
 		o.Failf(c19.P, "es:body-not-newline-terminated", "%s: bulk body does not end in a newline: …%q", what, c19.Clip(string(body[max(0, len(body)-80):])))
